@@ -1585,6 +1585,14 @@ impl ColorScale {
 
         match (left_stop, right_stop) {
             (Some(left_stop), Some(right_stop)) => {
+                // Exactly on a stop, both neighbours are that stop: return its color as it is.
+                // (Mixing it with itself at the local position 0 / 0 sent it through the color
+                // space of `mix` and could move a channel by one.)
+                #[allow(clippy::float_cmp)]
+                if left_stop.position.value() == right_stop.position.value() {
+                    return Some(left_stop.color.clone());
+                }
+
                 let diff_color_stops = right_stop.position.value() - left_stop.position.value();
                 let diff_position = position.value() - left_stop.position.value();
                 let local_position = Fraction::from(diff_position / diff_color_stops);
